@@ -98,9 +98,9 @@ def gen_table(rng, n_enums, big=False):
             elif f == "status":
                 rec.append(rng.choice([0, 1, 2, 3, 10, 17, 200, 999, None, "1", "10", "None", "17", 2.0, "2.0"]))   # (look-alikes of other types too)
             elif f == "level":
-                rec.append(rng.choice([7, 10, 17, 3.5, -2, None, 123456789]))
+                rec.append(rng.choice([7, 10, 17, 3.5, -2, None, 123456789, "7", "None", "3.5", 7.0]))
             else:
-                rec.append(rng.choice([True, False, None]))
+                rec.append(rng.choice([True, False, None, True, "True", "None", 1]))
         recs.append(rec)
     spec = {"kind": "table", "fields": fields, "records": recs}
     if not recs:
